@@ -141,6 +141,9 @@ pub fn check(p: &Prog, rep: &mut Report) {
         let case = format!("{}|{}", p.key, cfg.key());
         let detail = |obs: String| json!({"wgsl": p.src, "config": cfg.key(), "expected": format!("{:?}", p.expect.map(|(s, st)| (s, stages_str(st)))), "observed": obs});
         rep.nontrivial.insert(hash64(&p.src));
+        if repr == Repr::Rust && (rep.thorough() || hash64(&p.key) % 3 == 0) {
+            option_leg(rep, &p.key, &p.src, &cfg, &text, "pipeline layout / PUSH_CONSTANT_STAGES", &|kind, name| (kind == "fn" && name == "create_pipeline_layout") || (kind == "const" && name == "PUSH_CONSTANT_STAGES"));
+        }
         let obs = format!("ranges={:?} const={:?}", pl.push_ranges.iter().map(|r| (stages_str(r.0), r.2, r.3)).collect::<Vec<_>>(), konst.map(stages_str));
         rep.outcomes.insert(obs.clone());
         match p.expect {
